@@ -10,7 +10,7 @@ Generate type stubs for configurations.
 import inspect
 from typing import Any, Dict, Optional, Type, Union
 
-from .core import BaseField, Config, ConfigType, Field, Schema
+from .core import BaseField, Config, ConfigType, ConfigTypeField, Field, Schema
 from .fields import InstanceMethodField, VirtualField
 
 
@@ -26,12 +26,17 @@ def get_annotation_typestr(field: Union[BaseField, Type, str]) -> str:
         storage_type = field.storage_type
     elif isinstance(field, Schema):
         storage_type = Schema
+    elif isinstance(field, ConfigTypeField):
+        storage_type = field.config_type
     elif isinstance(field, type):
         storage_type = field
     elif isinstance(field, str):
         storage_type = field
     elif field is None:
         storage_type = "None"
+    elif getattr(field, "__module__", None) == "typing" or hasattr(field, "__origin__"):
+        # typing generics (typing.List[int], Optional[str], list[int], ...)
+        storage_type = field
     else:
         raise TypeError("Unknown storage_type: %s" % type(field))
 
@@ -119,6 +124,13 @@ def get_method_annotation(key: str, field: InstanceMethodField) -> str:
         items.append("**%s" % varkw)
 
     items[0] = "self"
+    posonly = [
+        param
+        for param in inspect.signature(field.method).parameters.values()
+        if param.kind is param.POSITIONAL_ONLY
+    ]
+    if posonly:
+        items.insert(len(posonly), "/")
     annotation = "def %s(%s)" % (key, ", ".join(items))
     if has_ret_annotation:
         retval = get_retval_annotation(annotations["return"])
